@@ -21,7 +21,7 @@ CLAIMED = {
         "Bounded symbolic model checking: the real evaluate(return_grad=True) runs on symbolic predictions (simplex by substitution); "
         "the returned score term is differentiated exactly (symx.diff) along every simplex direction and the solver shows it equals "
         "the difference of returned gradient entries, per feasible path (TV sign patterns as sign atoms, MMD zero-distance masks, all "
-        "clipping patterns on the closed box).  Also score(grad)==score(no grad), shape, zero gradient at clipped entries; long inputs "
+        "clipping patterns on the closed box).  Also score(grad)==score(no grad) (open simplex and every clipping pattern), shape, zero gradient at clipped entries; long inputs "
         "(N rows from 3 distinct rows) through the chain rule over the positions of a row.",
         "Trusted: symx (normal form, differentiation) + z3; differentiability region only (ties excluded); Wasserstein through the stubbed "
         "ot.emd2 with the envelope-theorem differential (POT's duals are trusted); exact reals; shapes in evidence.bounds.",
@@ -53,7 +53,8 @@ CLAIMED = {
         "for chi2); lower/upper bounds by solver inequalities (KL via tangent instances of log); on the CLOSED simplex every path "
         "(zeros, one-hot rows, ties, coinciding clusters) must leave score and gradient defined; empty clusters get exactly zero "
         "gradient and change the score by <= 1e-9 relative; MI of a balanced hard partition is within 1e-9 of log K.  Long inputs (67 / 300 "
-        "rows from 2 distinct rows) under reversal, rotations and an interleaving of the samples.",
+        "rows from 2 distinct rows) under reversal, rotations and an interleaving of the samples.  A few concrete float64 witnesses (labelled) for long "
+        "saturated inputs and for one-hot rows stored as integers / booleans.",
         "Trusted: symx + z3; 'finite' is algebraic definedness in exact arithmetic (float overflow/underflow is outside); shapes "
         "(2,2),(3,2),(2,3) with all permutations; transport stub canonical under relabelling; undischarged bounds are listed in the evidence.",
         "DESIGN.md §4 C13", None),
@@ -124,7 +125,8 @@ CLAIMED = {
         "rows the real predict_proba/predict/Tree.predict on the selection equals the corresponding rows on the whole array (term "
         "identity / labels on every path); repeat call, copy, stored training object; KernelRIM through an uninterpreted kernel of "
         "(metric, params, x_i, t_j) so that kernel arguments and parameters are checked; a narrowing dtype in check_array is an "
-        "uninterpreted rounding.",
+        "uninterpreted rounding.  After-fit jobs: six families fitted by the REAL fit (objective and optimiser stubbed, one epoch, 11 rows "
+        "from 2 symbolic rows), then arrays of the training shape that share most rows with the training data: every row as when predicted alone.",
         "Trusted: symx; m<=2 rows (3 thorough), shapes listed; 'all fitted states' = arbitrary parameter symbols of those shapes; "
         "Kauri trees = all shapes with <=3 leaves (4 thorough) over 2 features.",
         "DESIGN.md §4 C18", "symbolic execution of the repository source (symx): symbolic values/indices, decisions forked with z3 feasibility, post-conditions by term identity or path evaluation"),
@@ -142,7 +144,7 @@ CLAIMED = {
         "pattern forked): rejected <=> self pair or a cannot-link pair inside a must-link component (union-find oracle); the real "
         "gradient decoration with every ordered batch selection, symbolic predictions, upstream gradient and factor: the gradient "
         "handed on differs by exactly +-factor*(y_a-y_b) at the members' batch positions (term identity); malformed inputs concretely.",
-        "Trusted: symx; index values in [0,B] (B<=3 quick, <=5 thorough), m<=2 (3) must-link and c<=2 cannot-link pairs; check_array on "
+        "Trusted: symx; index values in [0,B] (one pair of each kind: B=7 quick, 9 thorough; otherwise B<=3 quick, <=4 thorough), m<=2 (3) must-link and c<=2 cannot-link pairs; check_array on "
         "pair lists stubbed to identity.",
         "DESIGN.md §4 C14", "symbolic execution of the repository source (symx): symbolic values/indices, decisions forked with z3 feasibility, post-conditions by term identity or path evaluation"),
     "C11": (
